@@ -7,10 +7,10 @@ from dataclasses import dataclass, field
 from typing import Dict, List, Optional, Tuple
 
 from .core import AnalysisError
-from .ir import Event, LoopInfo, Term, Walker, conj, mk_not, show, subterms
+from .ir import Event, LoopInfo, Term, Walker, conj, has_guard, mk_not, show, subterms
 from .kinds import Kinds, count_of
 from .rules_heap import _sub, lin, lin_eq
-from .schema import is_flag, is_matrix_read, is_metric_call, as_selector
+from .schema import is_flag, is_matrix_read, is_metric_call, as_selector, node_loop
 
 
 def K(n):
@@ -36,10 +36,21 @@ class KnnScan:
 
     @property
     def i(self) -> Term:
+        nl = node_loop(self.per)
+        if nl is not None and nl[1] is not None:
+            return nl[1]
         return ("iter", self.per.domain, self.per.lid)
 
     @property
+    def query_node(self) -> Optional[Term]:
+        nl = node_loop(self.per)
+        return nl[2] if nl is not None else None
+
+    @property
     def j(self) -> Term:
+        nl = node_loop(self.cand)
+        if nl is not None and nl[1] is not None:
+            return nl[1]
         return ("iter", self.cand.domain, self.cand.lid)
 
 
@@ -96,8 +107,8 @@ def check_knn_scan(rep, pre: str, scan: KnnScan, graph: Term, allow_self_skip: b
     kinds = Kinds(w)
     # candidate loop over every node of the graph
     dom = scan.cand.domain
-    okd = dom[0] == "call" and dom[1] == ("builtin", "range") and len(dom[2]) in (1, 2) \
-        and (len(dom[2]) == 1 or dom[2][0] == ("const", 0)) and count_of(dom[2][-1]) == graph
+    nlc = node_loop(scan.cand)
+    okd = nlc is not None and nlc[0] == graph and nlc[1] is not None
     rep.fn(pre + "KNN-domain", fn, f"for j in {show(dom)}", okd,
            "the scan must visit every node of the (training) graph", line=line)
     # weight written to slot k, index written to the same slot
@@ -182,7 +193,7 @@ def check_knn_scan(rep, pre: str, scan: KnnScan, graph: Term, allow_self_skip: b
         for t in reads:
             n_reads += 1
             need = ("cmp", "!=", *sorted([K("FLOAT_MAX"), ("idx", scan.D, t[2])], key=repr))
-            ok = any(g == need and pol for g, pol in e.guards)
+            ok = has_guard(e.guards, need)
             rep.ev(pre + "KNN-valid-slot", e, ok,
                    f"index buffer slot '{show(t[2])}' is read without checking that its distance is not FLOAT_MAX "
                    "(fewer than k candidates => stale index)")
